@@ -14,6 +14,7 @@ import LogosModel.CertP
 import LogosModel.FastCheck
 import LogosModel.DriverLook
 import LogosModel.Emit
+import LogosModel.Passes
 import Std.Data.HashMap
 import LogosModel.Source
 import Std.Data.HashSet
@@ -86,6 +87,10 @@ structure Case where
   states : Array StateData := #[]
   root : Nat := 0
   gerr : Nat := 0
+  /-- the graph before the passes of `Graph::new` (hook lines RAWDEF / RSTATE / REDGE) -/
+  rawStates : Array StateData := #[]
+  rawRoot : Nat := 0
+  hasRaw : Bool := false
   /-- viability table of a definition with look-around (`none` = not computed yet) -/
   lookT : Option (Option (List LK.LEntry)) := none
   lookM : Std.HashMap (LK.VecL × LK.Cls) Bool := {}
@@ -362,6 +367,19 @@ def emitAnswer (c : Case) : String :=
     | none => ""
   " ".intercalate sts ++ " LUTS " ++ " ".intercalate (p.1.map bitsHex)
 
+/-- "PASSES": the model's `Graph::new` passes applied to the raw dump, compared with the final graph -/
+def passesAnswer (c : Case) : String :=
+  if c.nodump || !c.hasRaw then "NORAW" else
+  if c.gerr > 0 then "GERR" else
+  let raw : Graph := { states := c.rawStates, root := c.rawRoot }
+  let g := Passes.passes raw
+  let f := c.graph
+  if g.root != f.root then s!"DIFF root model={g.root} code={f.root}" else
+  if g.states.size != f.states.size then s!"DIFF size model={g.states.size} code={f.states.size}" else
+  match (List.range f.states.size).find? fun i => g.get i != f.get i with
+  | some i => s!"DIFF state {i} model={repr (g.get i)} code={repr (f.get i)}"
+  | none => s!"SAME {c.rawStates.size} {f.states.size}"
+
 def answer (c : Case) (q : List String) : String :=
   match q with
   | ["CERT"] => certVerdict c 200000
@@ -376,6 +394,7 @@ def answer (c : Case) (q : List String) : String :=
   | ["COMPLETE", hex] => completeAnswer c (unhex hex)
   | ["TIE"] => tieVerdict c
   | ["EMIT"] => emitAnswer c
+  | ["PASSES"] => passesAnswer c
   | ["EQUIV", i, j] => equivVerdict c i.toNat! j.toNat!
   | ["EQUIV", i, j, f] => equivVerdict c i.toNat! j.toNat! f.toNat!
   | ["MATCH", i, hex] => matchVerdict c i.toNat! (unhex hex)
@@ -540,6 +559,13 @@ partial def run (h : IO.FS.Stream) (out : IO.FS.Stream) (cur : Case) (tbl : Std.
     let e : Edge := { ranges := pairsOf (rest.map String.toNat!), target := t.toNat! }
     run h out { cur with states := cur.states.modify s.toNat! fun sd => { sd with normal := sd.normal ++ [e] } } tbl
   | "GERR" :: _ => run h out { cur with gerr := cur.gerr + 1 } tbl
+  | "RAWDEF" :: _ :: r :: _ => run h out { cur with hasRaw := true, rawRoot := r.toNat! } tbl
+  | "RSTATE" :: _ :: a :: eoi :: _ =>
+    let sd : StateData := { accept := optOf (a.toInt?.getD 0), eoi := optOf (eoi.toInt?.getD 0) }
+    run h out { cur with rawStates := cur.rawStates.push sd } tbl
+  | "REDGE" :: s :: t :: _ :: rest =>
+    let e : Edge := { ranges := pairsOf (rest.map String.toNat!), target := t.toNat! }
+    run h out { cur with rawStates := cur.rawStates.modify s.toNat! fun sd => { sd with normal := sd.normal ++ [e] } } tbl
   | "CB" :: i :: k :: _ => run h out { cur with cbs := cur.cbs.setIfInBounds i.toNat! k.toNat! } tbl
   | "ERRCB" :: v :: _ => run h out { cur with errCb := v == "1" } tbl
   | ["Q", "BUMP", mode, hexsrc, st, en, n] =>
